@@ -31,10 +31,10 @@ def _hook(run: Run):
                 return NotImplemented
             run.effects.append((name, list(args), dict(kwargs)))
             return Sym("ext:" + base, _open=True, args=list(args), **{k: v for k, v in kwargs.items() if k not in ("args",)})
-        if isinstance(f, tuple) and f and f[0] == "method" and isinstance(f[1], Sym) and f[1].cls is None:
+        if isinstance(f, tuple) and f and f[0] == "method" and isinstance(f[1], Sym) and (f[1].cls is None or f[1].cls.find_method(f[2]) is None):
             obj, name = f[1], f[2]
             cands = it.prj.methods_named(name)
-            if obj.name.startswith("ext:") or obj.name.startswith("ext.") or not cands:
+            if obj.name.startswith("ext:") or obj.name.startswith("ext.") or not cands or obj.cls is not None:
                 run.effects.append((f"{obj.name}.{name}", list(args), dict(kwargs)))
                 r = Sym(f"ext.{obj.name}.{name}()", _open=True, args=list(args))
                 return r
